@@ -128,11 +128,13 @@ CLAIMS.update({
         category="proof",
         text=("Main clause proved: for every data field, a normal return of the leaf implies offset+width <= 8*len(payload) and the value is "
               "built only from payload bits below that bound; a field that does not fit makes the leaf, the walk and the constructor fail "
-              "with the library's error; __init__ fixes the bit length and the payload integer. The 'in particular' truncation clause is "
-              "argued from those contracts (prefix determinism) and backed by a BOUNDED stand-in - every whole-byte truncation of generated "
-              "complete messages of all 152 types - which is labelled bounded in evidence and not counted as proved."),
+              "with the library's error; __init__ fixes the bit length and the payload integer. The 'in particular' truncation clause: "
+              "prefix determinism of the reference layout interpreter is proved per concrete table node (structural + Iter induction, "
+              "~3 800 lemma obligations) from leaf axioms discharged on the leaf specification, and the corollary follows linearly; a "
+              "BOUNDED sweep (every whole-byte truncation of generated complete messages of all 152 types) is kept as a labelled cross-check."),
         design_ref="DESIGN.md 5/C06",
-        note=BASE_TRUST + "Prefix-determinism lemma not mechanised (bounded stand-in instead).",
+        note=BASE_TRUST + "Leaf axioms for the derived / attribute-dependent fields (PRN, CELLPRN, CELLSIG, DF396, IDF038) are argued; "
+             "the prefix relation is uninterpreted.",
         technique="VC generation from the real AST (exceptional postconditions of the leaf per data field) + labelled bounded truncation sweep",
     ),
     "C09": dict(
